@@ -1,16 +1,8 @@
 """C02 — nullifier bound to secret and transfer count (DESIGN.md §5 C02)."""
 from . import terms as T
 from . import pat as P
-from . import circ, leaf
+from . import circ, leaf, lc
 from .pat import V, K, Cb
-
-
-def _range04(ix):
-    """ix is elem(Range{0, 4})"""
-    if not (isinstance(ix, tuple) and ix and ix[0] == "elem"):
-        return False
-    r = circ.range_expr(ix[1])
-    return r is not None and P.const_of(r[0]) == 0 and P.const_of(r[1]) == 4
 
 
 def salted_preimage(ck, view, pre, salt_value, tail_roles, rule_key, loc, effects=None):
@@ -20,15 +12,15 @@ def salted_preimage(ck, view, pre, salt_value, tail_roles, rule_key, loc, effect
     detail = [(k, T.show(t)[:160]) for k, t, _ in seq]
     if ok:
         k0, t0, e0 = seq[0]
-        # head: push(constant(elem(string_to_felts(SALT)))) inside the loop over that same sequence
-        a = P.cb_args(t0, "cb.constant")
-        salt_seq = None
-        if a is not None and isinstance(P.norm(a[0]), tuple) and P.norm(a[0])[0] == "elem":
-            salt_seq = P.norm(a[0])[1]
-        head_ok = (k0 == "one" and salt_seq is not None and P.call_name(salt_seq) is not None
-                   and P.call_name(salt_seq).endswith("string_to_felts")
-                   and salt_seq[4] and salt_seq[4][0] == ("cs", salt_value)
-                   and e0 is not None and any(c[0] == "loop" and c[1] == salt_seq for c in e0.ctrl))
+        # head: constant(x) for every x of string_to_felts(SALT), in order (a push loop over it, or map(..).collect())
+        ef = leaf.each_form(view, k0, t0, e0)
+        head_ok = False
+        if ef is not None:
+            salt_seq, body, var = ef[1], ef[2], ef[3]
+            a = P.cb_args(body, "cb.constant")
+            head_ok = (a is not None and P.norm(a[0]) == ("idx", lc.canon(salt_seq), var) and P.call_name(salt_seq) is not None
+                       and P.call_name(salt_seq).endswith("string_to_felts")
+                       and bool(salt_seq[4]) and salt_seq[4][0] == ("cs", salt_value))
         ok = ok and head_ok
         for (k, t, e), role in zip(seq[1:], tail_roles):
             want = view.role(role)
@@ -96,15 +88,18 @@ def run(ck):
             if e.name != "cb.connect":
                 continue
             x, y = [P.norm(t) for t in circ.cb_operands(e)[:2]]
-            if x[0] == "elem" and y[0] == "elem":
-                bx, by = x[1], y[1]
-                strip = lambda t: t[1] if (isinstance(t, tuple) and t[0] == "fld" and t[2] == "elements") else t
-                if {strip(bx), strip(by)} == {ra, rb}:
-                    loops = circ.loops_of(e)
-                    zipped = any(isinstance(l, tuple) and l[0] == "zip" and {strip(l[1]), strip(l[2])} == {ra, rb} for l in loops)
-                    ck.require(zipped, "TERM", key, "connect(%s[i], %s[i]) for every i (loop over the zip of both)" % (role_a, role_b), e.loc)
-                    circ.require_uncond(ck, e, "UNCOND", key + "/uncond", "the %s connect" % key)
-                    return True
+            bx, ix, by, iy, nest = leaf.split_pair(e, x, y)
+            strip = lambda t: t[1] if (isinstance(t, tuple) and t[0] == "fld" and t[2] == "elements") else t
+            if ix is not None and iy is not None and {strip(bx), strip(by)} == {ra, rb}:
+                # every i: the loop streams both arrays whole (zip), or is a range over their common fixed length
+                la, lb = lc.known_len(bx), lc.known_len(by)
+                whole = ix == iy and lc.is_var(ix, 0) and nest.has_var(ix) and (
+                    (la is not None and la == lb and ix[2] == la)
+                    or ix[2] in (("minlen", P.norm(bx), P.norm(by)), ("minlen", P.norm(by), P.norm(bx))))
+                ck.require(whole, "TERM", key, "connect(%s[i], %s[i]) for every i (one loop over both arrays, whole)" % (role_a, role_b), e.loc,
+                           (T.show(ix), T.show(iy), [T.show(l)[:120] for l in nest.loops]))
+                circ.require_uncond(ck, e, "UNCOND", key + "/uncond", "the %s connect" % key)
+                return True
         return ck.fail("TERM", key, "no element-wise connect between %s and %s" % (role_a, role_b))
 
     zipped_connect("nullifier.transfer_count", "zk_merkle_proof.leaf.transfer_count", "count-shared")
@@ -115,8 +110,7 @@ def run(ck):
     nh = view.role("nullifier.hash")
     found = False
     for g in leaf.gated_equalities(view):
-        a, ia = leaf.split_indexed(g["A"])
-        b, ib = leaf.split_indexed(g["B"])
+        a, ia, b, ib, nest = leaf.split_pair(g["e"], g["A"], g["B"])
         strip = lambda t: t[1] if (isinstance(t, tuple) and t[0] == "fld" and t[2] == "elements") else t
         for (pub, ip, comp, ic) in ((a, ia, b, ib), (b, ib, a, ia)):
             if strip(pub) == nh:
@@ -124,7 +118,7 @@ def run(ck):
                 e = g["e"]
                 pre = leaf.double_hash_preimage(comp)
                 ck.require(pre is not None, "TERM", "nullifier-eq/double-hash", "public nullifier limb is compared with H(H(preimage)) limb", e.loc, T.show(comp)[:300])
-                ck.require(ip == ic and _range04(ip), "TERM", "nullifier-eq/all-limbs", "the same limb index i in 0..4 on both sides", e.loc, (T.show(ip), T.show(ic)))
+                ck.require(leaf.all_limbs(nest, ip, ic), "TERM", "nullifier-eq/all-limbs", "the same limb index i in 0..4 on both sides", e.loc, (T.show(ip), T.show(ic)))
                 ck.require(flag is not None and P.norm(g["G"]) == flag, "PROV", "nullifier-eq/flag", "the gate is the in-circuit is_not_dummy term (not a witness)", e.loc, T.show(g["G"])[:200])
                 circ.require_uncond(ck, e, "UNCOND", "nullifier-eq/uncond", "the nullifier equation")
                 if pre is not None:
@@ -140,13 +134,12 @@ def run(ck):
             continue
         x, y = [P.norm(t) for t in circ.cb_operands(e)[:2]]
         for (p, q) in ((x, y), (y, x)):
-            bq, iq = leaf.split_indexed(q)
+            bp, ip, bq, iq, nest = leaf.split_pair(e, p, q)
             strip = lambda t: t[1] if (isinstance(t, tuple) and t[0] == "fld" and t[2] == "elements") else t
-            bp, ip = leaf.split_indexed(p)
             pre = leaf.double_hash_preimage(bp)
             if strip(bq) == acc and pre is not None:
                 found = True
-                ck.require(ip == iq and _range04(ip), "TERM", "address-eq/all-limbs", "connect(H(H(pre))[i], account_id[i]) for i in 0..4", e.loc)
+                ck.require(leaf.all_limbs(nest, ip, iq), "TERM", "address-eq/all-limbs", "connect(H(H(pre))[i], account_id[i]) for i in 0..4", e.loc)
                 circ.require_uncond(ck, e, "UNCOND", "address-eq/uncond", "the address equation")
                 salted_preimage(ck, view, pre, usalt, ["unspendable_account.secret"], "address-eq/preimage", e.loc)
     if not found:
